@@ -94,11 +94,12 @@ Proof.
   intros l m Hin H1 H2 H3.
   assert (Hstep : forall e, is_diag (top_step e m) = true).
   { intros e. unfold top_step. rewrite (is_name_false _ _ H3). apply parse_sol_unknown; auto. }
-  unfold edit_parse, parse. simpl get_list. cbv iota beta.
+  unfold edit_parse, parse.
   destruct l as [|a [|b l]].
   - destruct Hin.
-  - destruct Hin as [->|[]]. rewrite (is_name_false _ _ H3). apply parse_sol_unknown; auto.
-  - apply foldM_fail with m; auto.
+  - simpl get_list. cbv iota beta.
+    destruct Hin as [->|[]]. rewrite (is_name_false _ _ H3). apply parse_sol_unknown; auto.
+  - simpl get_list. cbv iota beta. apply foldM_fail with m; auto.
 Qed.
 
 Theorem unknown_key_nested : forall (sol file : bool) (e : edit_actor) (l : list meta) (m : meta), In m l ->
@@ -107,7 +108,8 @@ Theorem unknown_key_nested : forall (sol file : bool) (e : edit_actor) (l : list
 Proof.
   intros sol file e l m Hin H1 H2 H3 H4.
   unfold parse_sol. destruct (which_sol e (MList (sol_name sol) l)) as [sol'|d]; [|reflexivity].
-  simpl. apply foldM_fail with m; auto.
+  destruct l as [|a l]; [destruct Hin|].
+  simpl get_list. cbv iota beta. apply foldM_fail with m; auto.
   intros s. unfold sol_step. rewrite (is_name_false _ _ H4).
   unfold parse_sol_nested, nested_t. destruct (get_t sol' s) as [[dd ii] rr].
   rewrite (is_name_false _ _ H1), (is_name_false _ _ H2), (is_name_false _ _ H3). reflexivity.
@@ -119,10 +121,13 @@ Qed.
 Theorem nested_file_top : forall (l rest pre : list meta),
   is_diag (edit_parse (MList "edit" [MList "file" (pre ++ MList "file" l :: rest)%list])) = true.
 Proof.
-  intros l rest pre. unfold edit_parse, parse. simpl.
-  apply foldM_fail with (MList "file" l).
-  - apply in_elt.
-  - intros s. reflexivity.
+  intros l rest pre. unfold edit_parse, parse. simpl get_list. cbv iota beta.
+  replace (is_name "file" (MList "file" (pre ++ MList "file" l :: rest)%list)) with true by reflexivity.
+  assert (H : forall s, is_diag (foldM file_part_step s (pre ++ MList "file" l :: rest)%list) = true).
+  { apply foldM_fail with (MList "file" l).
+    - apply in_elt.
+    - intros s. reflexivity. }
+  destruct pre as [|a pre]; simpl app in *; simpl get_list; cbv iota beta; apply H.
 Qed.
 
 (* ------------------------------------------------------------------------------------------ *)
@@ -267,17 +272,23 @@ Proof.
   apply (addstep_some L [(n, h)]). reflexivity.
 Qed.
 
-Lemma idents_flat g ns opt : g && has_nfile ns = false ->
+Lemma idents_flat g ns opt : g && has_nfile ns = false -> forallb nonempty_nitem ns = true ->
   foldM (idents_step g) opt (map render_nitem ns) = foldM addstep opt (flatN g ns).
 Proof.
-  intros H. rewrite foldM_map. unfold flatN. apply foldM_flat.
+  intros H Hne. rewrite foldM_map. unfold flatN. apply foldM_flat.
   intros a Ha s. destruct a as [n|ms].
   - unfold idents_step. simpl.
     destruct (is_name "file" (MPath n)); unfold addstep; simpl; destruct (add_if_unique s (MPath n) g); reflexivity.
   - assert (Hf : has_nfile ns = true).
     { unfold has_nfile. apply existsb_exists. exists (NFile ms); split; auto. }
     rewrite Hf, andb_true_r in H. subst g.
-    unfold idents_step. simpl. rewrite !foldM_map. reflexivity.
+    rewrite forallb_forall in Hne. specialize (Hne _ Ha). simpl in Hne.
+    destruct ms as [|m ms]; [discriminate|].
+    unfold idents_step. simpl map. simpl get_list. cbv iota beta.
+    replace (is_name "file" (MList "file" (MPath m :: map MPath ms))) with true by reflexivity.
+    change (MPath m :: map MPath ms) with (map MPath (m :: ms)).
+    change ((m, true) :: map (fun n => (n, true)) ms) with (map (fun n : string => (n, true)) (m :: ms)).
+    rewrite !foldM_map. reflexivity.
 Qed.
 
 Lemma idents_nested g ns opt : g && has_nfile ns = true -> forallb nonempty_nitem ns = true ->
@@ -304,8 +315,11 @@ Lemma parse_idents_spec key s g :
   forget (parse_idents (None, false) (render_sect s) g) = if legal_sect (s, g) then Some (den_names (Some (s, g))) else None.
 Proof.
   intros Hne Hr. rewrite Hr. unfold legal_sect, den_names, nonempty_sect in *. simpl fst; simpl snd.
-  destruct (names_of s) as [ns|]; simpl.
+  destruct (names_of s) as [ns|].
   - apply andb_true_iff in Hne. destruct Hne as [Hne Hall].
+    assert (G : get_list (render_names key (Some ns)) = Ok (Some (map render_nitem ns))).
+    { destruct ns; [discriminate|reflexivity]. }
+    unfold parse_idents. rewrite G.
     rewrite forget_bind.
     destruct (g && has_nfile ns) eqn:E.
     + rewrite andb_false_r. rewrite idents_nested; auto.
@@ -422,16 +436,29 @@ Lemma file_group_step_sect sol e s :
   file_group_step sol e (render_sect s) = parse_sol_nested e (render_sect s) sol true.
 Proof. unfold file_group_step, abort_if_is_file. rewrite sect_not_file. reflexivity. Qed.
 
-Lemma sitems_flat sol f xs e : f && has_sfile xs = false ->
+Lemma get_list_ne n l : l <> [] -> get_list (MList n l) = Ok (Some l).
+Proof. destruct l; [congruence|reflexivity]. Qed.
+Lemma get_file_list_ne n l : l <> [] -> get_file_list (MList n l) = Ok l.
+Proof. intros H. unfold get_file_list. rewrite get_list_ne; auto. Qed.
+Lemma map_ne {A B} (h : A -> B) l : ne l = true -> map h l <> [].
+Proof. destruct l; simpl; [discriminate|discriminate]. Qed.
+
+Lemma sitems_flat sol f xs e : f && has_sfile xs = false -> forallb nonempty_sitem xs = true ->
   foldM (sol_step sol f) e (map render_sitem xs) = foldM (estep sol) e (flatS f xs).
 Proof.
-  intros H. rewrite foldM_map. unfold flatS. revert e. apply foldM_flat.
+  intros H Hne. rewrite foldM_map. unfold flatS. revert e. apply foldM_flat.
   intros a Ha s. destruct a as [c|ss].
   - rewrite foldM_single. unfold sol_step, estep. simpl. rewrite sect_not_file. reflexivity.
   - assert (Hf : has_sfile xs = true).
     { unfold has_sfile. apply existsb_exists. exists (SFileS ss); split; auto. }
     rewrite Hf, andb_true_r in H. subst f.
-    unfold sol_step. simpl. rewrite !foldM_map.
+    rewrite forallb_forall in Hne. specialize (Hne _ Ha). simpl in Hne.
+    apply andb_true_iff in Hne. destruct Hne as [Hne _].
+    cbv beta. unfold sol_step.
+    change (render_sitem (SFileS ss)) with (MList "file" (map render_sect ss)).
+    change (is_name "file" (MList "file" (map render_sect ss))) with true. cbv iota.
+    rewrite get_file_list_ne by (apply map_ne; auto).
+    simpl bind. rewrite !foldM_map.
     apply foldM_ext_in. intros c _ s'. rewrite file_group_step_sect. reflexivity.
 Qed.
 
@@ -474,6 +501,77 @@ Proof.
     destruct o; simpl; rewrite andb_false_r; reflexivity.
 Qed.
 
+(* a rendered empty list makes its step fail from every state *)
+Lemma forallb_false {A} (p : A -> bool) l : forallb p l = false -> exists x, In x l /\ p x = false.
+Proof.
+  induction l as [|a l IH]; simpl; [discriminate|].
+  destruct (p a) eqn:E; simpl.
+  - intros H. destruct (IH H) as [x [Hx Hp]]. exists x; auto.
+  - intros _. exists a; auto.
+Qed.
+
+Lemma is_diag_bind {A B} (x : res A) (f : A -> res B) : is_diag x = true -> is_diag (bind x f) = true.
+Proof. destruct x; simpl; [discriminate|auto]. Qed.
+
+Lemma nitem_fail x : nonempty_nitem x = false -> forall g s, is_diag (idents_step g s (render_nitem x)) = true.
+Proof. destruct x as [n|[|m ms]]; try discriminate. reflexivity. Qed.
+
+Lemma parse_idents_fail ns : ne ns && forallb nonempty_nitem ns = false ->
+  forall key os g, is_diag (parse_idents os (MList key (map render_nitem ns)) g) = true.
+Proof.
+  intros H key [opt sc] g. unfold parse_idents. destruct ns as [|x ns]; [reflexivity|].
+  simpl ne in H. rewrite andb_true_l in H. apply forallb_false in H. destruct H as [y [Hy Hf]].
+  replace (get_list (MList key (map render_nitem (x :: ns)))) with (@Ok (option (list meta)) (Some (map render_nitem (x :: ns)))) by reflexivity.
+  apply is_diag_bind. apply foldM_fail with (render_nitem y).
+  - apply in_map; auto.
+  - intros s. apply nitem_fail; auto.
+Qed.
+
+Lemma sect_fail s : nonempty_sect s = false ->
+  forall name t g, is_diag (nested_t name t (render_sect s) g) = true.
+Proof.
+  destruct s as [|[ns|]|[ns|]]; try discriminate; unfold nonempty_sect; simpl names_of;
+    intros H name [[d i] r] g; unfold nested_t; simpl render_sect; unfold render_names.
+  - replace (is_name "def" (MList "imp" (map render_nitem ns))) with false by reflexivity.
+    replace (is_name "imp" (MList "imp" (map render_nitem ns))) with true by reflexivity.
+    destruct (fst i); [reflexivity|]. apply is_diag_bind. apply parse_idents_fail; auto.
+  - replace (is_name "def" (MList "trt" (map render_nitem ns))) with false by reflexivity.
+    replace (is_name "imp" (MList "trt" (map render_nitem ns))) with false by reflexivity.
+    replace (is_name "trt" (MList "trt" (map render_nitem ns))) with true by reflexivity.
+    destruct (fst r); [reflexivity|]. apply is_diag_bind. apply parse_idents_fail; auto.
+Qed.
+
+Lemma sect_fail_nested s e sol g : nonempty_sect s = false ->
+  is_diag (parse_sol_nested e (render_sect s) sol g) = true.
+Proof. intros H. unfold parse_sol_nested. apply is_diag_bind. apply sect_fail; auto. Qed.
+
+Lemma sitem_fail x : nonempty_sitem x = false ->
+  forall sol f e, is_diag (sol_step sol f e (render_sitem x)) = true.
+Proof.
+  destruct x as [c|ss]; simpl nonempty_sitem; intros H sol f e; unfold sol_step; simpl render_sitem.
+  - rewrite sect_not_file. apply sect_fail_nested; auto.
+  - replace (is_name "file" (MList "file" (map render_sect ss))) with true by reflexivity.
+    destruct f; [reflexivity|]. destruct ss as [|c ss]; [reflexivity|].
+    simpl ne in H. rewrite andb_true_l in H. apply forallb_false in H. destruct H as [y [Hy Hf]].
+    replace (get_file_list (MList "file" (map render_sect (c :: ss)))) with (@Ok (list meta) (map render_sect (c :: ss))) by reflexivity.
+    cbv beta iota delta [bind]. apply foldM_fail with (render_sect y).
+    + apply in_map; auto.
+    + intros s. rewrite file_group_step_sect. apply sect_fail_nested; auto.
+Qed.
+
+Lemma part_fail p : nonempty_part p = false ->
+  forall e f, is_diag (parse_sol e (render_part p) f) = true.
+Proof.
+  destruct p as [sol [xs|]]; [|discriminate]. simpl nonempty_part. intros H e f.
+  unfold parse_sol. destruct (which_sol e (render_part (PSol sol (Some xs)))) as [sol'|]; [|reflexivity].
+  simpl bind. simpl render_part. destruct xs as [|x xs]; [reflexivity|].
+  simpl ne in H. rewrite andb_true_l in H. apply forallb_false in H. destruct H as [y [Hy Hf]].
+  replace (get_list (MList (sol_name sol) (map render_sitem (x :: xs)))) with (@Ok (option (list meta)) (Some (map render_sitem (x :: xs)))) by reflexivity.
+  apply foldM_fail with (render_sitem y).
+  - apply in_map; auto.
+  - intros s. apply sitem_fail; auto.
+Qed.
+
 Definition of_opt {A} (o : option A) : res A := match o with Some a => Ok a | None => Diag DUnexpected end.
 Lemma forget_of_opt {A} (o : option A) : forget (of_opt o) = o.
 Proof. destruct o; reflexivity. Qed.
@@ -482,7 +580,8 @@ Definition part_run (sol : bool) (t : tuples) (x : part_ast * bool) : option tup
   if is_none_t t then
     match fst x with
     | PSol _ None => Some (all_t t (snd x))
-    | PSol _ (Some xs) => if snd x && has_sfile xs then None
+    | PSol _ (Some xs) => if negb (ne xs && forallb nonempty_sitem xs) then None
+                          else if snd x && has_sfile xs then None
                           else forget (foldM (tstep (sol_name sol)) t (flatS (snd x) xs))
     end
   else None.
@@ -496,14 +595,26 @@ Proof. destruct sol, o; reflexivity. Qed.
 Lemma pstep_comp e sol o f :
   forget (pstep e (PSol sol o, f)) = option_map (set_t sol e) (forget (solstep sol (get_t sol e) (PSol sol o, f))).
 Proof.
-  unfold pstep, solstep, parse_sol. rewrite forget_of_opt. unfold part_run. simpl fst; simpl snd.
-  rewrite which_sol_part. destruct (is_none_t (get_t sol e)); [|reflexivity].
-  simpl bind. destruct o as [xs|].
-  - simpl. destruct (f && has_sfile xs) eqn:E.
-    + rewrite sitems_nested; auto.
-    + rewrite sitems_flat by auto. rewrite estep_fold.
-      destruct (foldM (tstep (sol_name sol)) (get_t sol e) (flatS f xs)); reflexivity.
-  - destruct sol; reflexivity.
+  destruct o as [xs|].
+  - destruct (ne xs && forallb nonempty_sitem xs) eqn:N.
+    + unfold pstep, solstep, parse_sol. rewrite forget_of_opt. unfold part_run. simpl fst; simpl snd.
+      cbv iota beta. rewrite N. simpl negb. cbv iota.
+      apply andb_true_iff in N. destruct N as [N1 N2].
+      rewrite which_sol_part. destruct (is_none_t (get_t sol e)); [|reflexivity].
+      cbv beta iota delta [bind].
+      change (render_part (PSol sol (Some xs))) with (MList (sol_name sol) (map render_sitem xs)).
+      rewrite get_list_ne by (apply map_ne; auto).
+      destruct (f && has_sfile xs) eqn:E.
+      * rewrite sitems_nested; auto.
+      * rewrite sitems_flat by auto. rewrite estep_fold.
+        destruct (foldM (tstep (sol_name sol)) (get_t sol e) (flatS f xs)); reflexivity.
+    + unfold pstep. simpl fst; simpl snd.
+      rewrite (proj2 (forget_None_diag _) (part_fail (PSol sol (Some xs)) N e f)).
+      unfold solstep. rewrite forget_of_opt. unfold part_run. simpl fst; simpl snd. cbv iota beta. rewrite N. simpl negb. cbv iota.
+      destruct (is_none_t (get_t sol e)); reflexivity.
+  - unfold pstep, solstep, parse_sol. rewrite forget_of_opt. unfold part_run. simpl fst; simpl snd.
+    rewrite which_sol_part. destruct (is_none_t (get_t sol e)); [|reflexivity].
+    destruct sol; reflexivity.
 Qed.
 
 Lemma part_comp sol Lc :
@@ -516,7 +627,8 @@ Proof.
   - intros [[k o] f] Hin. specialize (Hne _ Hin). simpl in Hne.
     unfold solstep. rewrite forget_of_opt. unfold part_run, legal_part. simpl.
     destruct o as [xs|].
-    + apply andb_true_iff in Hne. destruct Hne as [Hne Hall].
+    + rewrite Hne. simpl negb. cbv iota.
+      apply andb_true_iff in Hne. destruct Hne as [Hne Hall].
       destruct (f && has_sfile xs); simpl; [reflexivity|].
       apply sects_run. apply flatS_nonempty; auto.
     + destruct f; reflexivity.
@@ -538,23 +650,47 @@ Proof. destruct p as [[|] [l|]]; reflexivity. Qed.
 Lemma file_part_step_part e p : file_part_step e (render_part p) = parse_sol e (render_part p) true.
 Proof. unfold file_part_step, abort_if_is_file. rewrite part_not_file. reflexivity. Qed.
 
-Lemma top_flat l : forall e, foldM top_step e (map render_eitem l) = foldM pstep e (flatE l).
+Lemma top_flat l : forallb nonempty_eitem l = true ->
+  forall e, foldM top_step e (map render_eitem l) = foldM pstep e (flatE l).
 Proof.
-  intros e. rewrite foldM_map. unfold flatE. revert e. apply foldM_flat.
-  intros a _ s. destruct a as [p|ps].
+  intros Hne e. rewrite foldM_map. unfold flatE. revert e. apply foldM_flat.
+  intros a Ha s. destruct a as [p|ps].
   - rewrite foldM_single. unfold top_step, pstep. simpl. rewrite part_not_file. reflexivity.
-  - unfold top_step. simpl. rewrite !foldM_map.
+  - rewrite forallb_forall in Hne. specialize (Hne _ Ha). simpl in Hne.
+    apply andb_true_iff in Hne. destruct Hne as [Hne _].
+    cbv beta. unfold top_step.
+    change (render_eitem (EFile ps)) with (MList "file" (map render_part ps)).
+    change (is_name "file" (MList "file" (map render_part ps))) with true. cbv iota.
+    rewrite get_file_list_ne by (apply map_ne; auto).
+    cbv beta iota delta [bind]. rewrite !foldM_map.
     apply foldM_ext_in. intros p _ s'. rewrite file_part_step_part. reflexivity.
 Qed.
 
-Lemma parse_top e l : ne l = true -> forallb nonempty_eitem l = true ->
+Lemma parse_top e l : ne l = true ->
   parse e (MList "edit" (map render_eitem l)) = foldM top_step e (map render_eitem l).
 Proof.
-  intros Hne Hall. destruct l as [|x [|y l]]; [discriminate| |reflexivity].
-  simpl map. rewrite foldM_single. unfold parse. simpl get_list. cbv iota beta.
+  intros Hne. destruct l as [|x [|y l]]; [discriminate| |reflexivity].
+  simpl map. rewrite foldM_single. unfold parse.
+  change (get_list (MList "edit" [render_eitem x])) with (@Ok (option (list meta)) (Some [render_eitem x])).
+  cbv iota beta.
   destruct x as [p|ps].
-  - simpl. rewrite part_not_file. unfold top_step. rewrite part_not_file. reflexivity.
-  - reflexivity.
+  - change (render_eitem (EPart p)) with (render_part p).
+    rewrite part_not_file. unfold top_step. rewrite part_not_file. reflexivity.
+  - destruct ps; reflexivity.
+Qed.
+
+Lemma eitem_fail x : nonempty_eitem x = false -> forall e, is_diag (top_step e (render_eitem x)) = true.
+Proof.
+  destruct x as [p|ps]; simpl nonempty_eitem; intros H e; unfold top_step.
+  - change (render_eitem (EPart p)) with (render_part p). rewrite part_not_file. apply part_fail; auto.
+  - destruct ps as [|p ps]; [reflexivity|].
+    simpl ne in H. rewrite andb_true_l in H. apply forallb_false in H. destruct H as [y [Hy Hf]].
+    change (render_eitem (EFile (p :: ps))) with (MList "file" (map render_part (p :: ps))).
+    change (is_name "file" (MList "file" (map render_part (p :: ps)))) with true. cbv iota.
+    rewrite get_file_list_ne by (apply map_ne; reflexivity).
+    cbv beta iota delta [bind]. apply foldM_fail with (render_part y).
+    + apply in_map; auto.
+    + intros s. rewrite file_part_step_part. apply part_fail; auto.
 Qed.
 
 Lemma flatE_nonempty l : forallb nonempty_eitem l = true ->
@@ -571,52 +707,80 @@ Qed.
 Lemma is_sol_excl : forall x : part_ast * bool, is_sol false x = negb (is_sol true x).
 Proof. intros [[[|] o] f]; reflexivity. Qed.
 
-Theorem parse_grammar : forall e : edit_ast, nonempty e = true ->
-  forget (edit_parse (render e)) = if legal e then Some (denote e) else None.
+Theorem parse_grammar : forall e : edit_ast,
+  forget (edit_parse (render e)) = if nonempty e && legal e then Some (denote e) else None.
 Proof.
-  intros [| |l] Hne; try reflexivity.
-  simpl in Hne. apply andb_true_iff in Hne. destruct Hne as [Hne Hall].
-  unfold edit_parse. simpl render. rewrite parse_top, top_flat by auto.
-  change default_ea with (mkE empty_t empty_t).
-  rewrite (foldM_split2 mkE pstep (solstep true) (solstep false) (is_sol true) (is_sol false) is_sol_excl).
-  - rewrite !part_comp.
-    + unfold legal, denote, count. rewrite !find_hd.
-      rewrite (forallb_split2 legal_part (is_sol true) (is_sol false) is_sol_excl (flatE l)).
-      destruct (le1 (List.length (filter (is_sol true) (flatE l)))),
-        (le1 (List.length (filter (is_sol false) (flatE l)))),
-        (forallb legal_part (filter (is_sol true) (flatE l))),
-        (forallb legal_part (filter (is_sol false) (flatE l))); reflexivity.
-    + intros x Hin. apply filter_In in Hin. apply (flatE_nonempty l Hall). tauto.
-    + intros x Hin. apply filter_In in Hin. apply (flatE_nonempty l Hall). tauto.
-  - intros a b [[[|] o] f] H; try discriminate. rewrite pstep_comp. reflexivity.
-  - intros a b [[[|] o] f] H; try discriminate. rewrite pstep_comp. reflexivity.
+  intros [| |l]; try reflexivity.
+  destruct (nonempty (EList l)) eqn:Hne.
+  - rewrite andb_true_l.
+    simpl in Hne. apply andb_true_iff in Hne. destruct Hne as [Hne Hall].
+    unfold edit_parse. simpl render. rewrite parse_top, top_flat by auto.
+    change default_ea with (mkE empty_t empty_t).
+    rewrite (foldM_split2 mkE pstep (solstep true) (solstep false) (is_sol true) (is_sol false) is_sol_excl).
+    + rewrite !part_comp.
+      * unfold legal, denote, count. rewrite !find_hd.
+        rewrite (forallb_split2 legal_part (is_sol true) (is_sol false) is_sol_excl (flatE l)).
+        destruct (le1 (List.length (filter (is_sol true) (flatE l)))),
+          (le1 (List.length (filter (is_sol false) (flatE l)))),
+          (forallb legal_part (filter (is_sol true) (flatE l))),
+          (forallb legal_part (filter (is_sol false) (flatE l))); reflexivity.
+      * intros x Hin. apply filter_In in Hin. apply (flatE_nonempty l Hall). tauto.
+      * intros x Hin. apply filter_In in Hin. apply (flatE_nonempty l Hall). tauto.
+    + intros a b [[[|] o] f] H; try discriminate. rewrite pstep_comp. reflexivity.
+    + intros a b [[[|] o] f] H; try discriminate. rewrite pstep_comp. reflexivity.
+  - rewrite andb_false_l.
+    simpl in Hne. unfold edit_parse. simpl render.
+    destruct l as [|x l]; [reflexivity|].
+    rewrite parse_top by reflexivity.
+    simpl ne in Hne. rewrite andb_true_l in Hne. apply forallb_false in Hne. destruct Hne as [y [Hy Hf]].
+    apply forget_None_diag. apply foldM_fail with (render_eitem y).
+    + apply in_map; auto.
+    + intros s. apply eitem_fail; auto.
 Qed.
 
 (* ------------------------------------------------------------------------------------------ *)
 (* T2                                                                                           *)
 (* ------------------------------------------------------------------------------------------ *)
-Theorem parse_family_grammar : forall e : fam_ast, nonempty_fam e = true ->
-  forget (edit_parse_family (render_fam e)) = if legal_fam e then Some (denote_fam e) else None.
+Lemma parse_family_list l : ne l = true ->
+  edit_parse_family (render_fam (FList l)) = foldM (sol_step false false) default_ea (map render_sitem l).
 Proof.
-  intros [| |l] Hne; try reflexivity.
-  simpl in Hne. apply andb_true_iff in Hne. destruct Hne as [Hl Hne].
-  assert (E : edit_parse_family (render_fam (FList l)) = foldM (sol_step false false) default_ea (map render_sitem l)).
-  { destruct l as [|x [|y l']]; [discriminate| |reflexivity].
-    simpl map. rewrite foldM_single. unfold edit_parse_family, parse_family, sol_step. simpl.
-    destruct x as [c|ss].
-    - simpl. rewrite sect_not_file. reflexivity.
-    - reflexivity. }
-  rewrite E. rewrite sitems_flat by reflexivity. rewrite estep_fold, forget_bind.
-  change (get_t false default_ea) with empty_t.
-  rewrite sects_run.
-  - unfold legal_fam, denote_fam. destruct (legal_sects (flatS false l)); reflexivity.
-  - apply flatS_nonempty. exact Hne.
+  intros Hne. destruct l as [|x [|y l']]; [discriminate| |reflexivity].
+  simpl map. rewrite foldM_single. unfold edit_parse_family, parse_family, render_fam. simpl map.
+  change (get_list (MList "edit" [render_sitem x])) with (@Ok (option (list meta)) (Some [render_sitem x])).
+  cbv iota beta. unfold sol_step.
+  destruct x as [c|ss].
+  - change (render_sitem (SSect c)) with (render_sect c). rewrite sect_not_file. reflexivity.
+  - destruct ss; reflexivity.
+Qed.
+
+Theorem parse_family_grammar : forall e : fam_ast,
+  forget (edit_parse_family (render_fam e)) = if nonempty_fam e && legal_fam e then Some (denote_fam e) else None.
+Proof.
+  intros [| |l]; try reflexivity.
+  destruct (nonempty_fam (FList l)) eqn:Hne.
+  - rewrite andb_true_l.
+    simpl in Hne. apply andb_true_iff in Hne. destruct Hne as [Hl Hne].
+    rewrite parse_family_list by auto.
+    rewrite sitems_flat by auto. rewrite estep_fold, forget_bind.
+    change (get_t false default_ea) with empty_t.
+    rewrite sects_run.
+    + unfold legal_fam, denote_fam. destruct (legal_sects (flatS false l)); reflexivity.
+    + apply flatS_nonempty. exact Hne.
+  - rewrite andb_false_l. simpl in Hne.
+    destruct l as [|x l]; [reflexivity|].
+    rewrite parse_family_list by reflexivity.
+    simpl ne in Hne. rewrite andb_true_l in Hne. apply forallb_false in Hne. destruct Hne as [y [Hy Hf]].
+    apply forget_None_diag. apply foldM_fail with (render_sitem y).
+    + apply in_map; auto.
+    + intros s. apply sitem_fail; auto.
 Qed.
 
 Theorem parse_family_single : forall x : sitem, nonempty_sitem x = true ->
   forget (edit_parse_family (render_fam (FList [x]))) = if legal_fam (FList [x]) then Some (denote_fam (FList [x])) else None.
 Proof.
-  intros x Hne. apply parse_family_grammar. simpl. rewrite Hne. reflexivity.
+  intros x Hne. rewrite parse_family_grammar.
+  replace (nonempty_fam (FList [x])) with true by (simpl; rewrite Hne; reflexivity).
+  reflexivity.
 Qed.
 
 Theorem parse_family_bare :
@@ -644,7 +808,7 @@ Qed.
 
 Lemma add_if_unique_ok vec m file vec' : nl_ok vec -> add_if_unique vec m file = Ok vec' -> nl_ok vec'.
 Proof.
-  unfold add_if_unique, nl_ok. destruct vec as [v|].
+  unfold add_if_unique, nl_ok. destruct (negb (is_word m)); [discriminate|]. destruct vec as [v|].
   - destruct (existsb (fun p => (mname m =? fst p)%string) v) eqn:E; [discriminate|].
     intros Hn H. inversion H; subst. rewrite map_app. simpl. apply NoDup_snoc; auto.
     intros Hin. apply in_map_iff in Hin. destruct Hin as [p [Hp Hin]].
@@ -678,7 +842,8 @@ Lemma nested_t_ok name t m file t' : names_ok t -> nested_t name t m file = Ok t
 Proof.
   destruct t as [[d i] r]. unfold nested_t, names_ok. intros [Hi Hr].
   destruct (is_name "def" m).
-  - destruct (fst d); [discriminate|]. intros H; inversion H; subst. auto.
+  - destruct (negb (is_word m)); [discriminate|].
+    destruct (fst d); [discriminate|]. intros H; inversion H; subst. auto.
   - destruct (is_name "imp" m).
     + destruct (fst i) eqn:Ei; [discriminate|].
       destruct (parse_idents i m file) as [i'|] eqn:E; simpl; [|discriminate].
@@ -778,12 +943,130 @@ Proof. intros m e H. apply (parse_ok default_ea m e default_ok H). Qed.
 Theorem parse_family_names_nodup : forall (m : meta) (e : edit_actor), edit_parse_family m = Ok e -> names_ok (ea_script e) /\ names_ok (ea_live e).
 Proof. intros m e H. apply (parse_family_ok default_ea m e default_ok H). Qed.
 
-Print Assumptions parse_grammar.
-Print Assumptions parse_family_grammar.
-Print Assumptions parse_family_single.
-Print Assumptions parse_family_bare.
+(* ------------------------------------------------------------------------------------------ *)
+(* C: rule theorems on arbitrary attribute trees                                                *)
+(* ------------------------------------------------------------------------------------------ *)
+Theorem empty_edit_diag : forall e, is_diag (parse e (MList "edit" [])) = true /\ is_diag (parse_family e (MList "edit" [])) = true.
+Proof. intros e; split; reflexivity. Qed.
+
+Theorem empty_part_diag : forall e n file, is_diag (parse_sol e (MList n []) file) = true.
+Proof. intros e n file. unfold parse_sol. destruct (which_sol e (MList n [])); reflexivity. Qed.
+
+Lemma parse_idents_empty os n file : is_diag (parse_idents os (MList n []) file) = true.
+Proof. destruct os; reflexivity. Qed.
+
+Lemma nested_t_empty name t n file : is_diag (nested_t name t (MList n []) file) = true.
+Proof.
+  destruct t as [[d i] r]. unfold nested_t.
+  destruct (is_name "def" (MList n [])); [reflexivity|].
+  destruct (is_name "imp" (MList n [])).
+  - destruct (fst i); [reflexivity|]. apply is_diag_bind, parse_idents_empty.
+  - destruct (is_name "trt" (MList n [])); [|reflexivity].
+    destruct (fst r); [reflexivity|]. apply is_diag_bind, parse_idents_empty.
+Qed.
+
+Theorem empty_names_diag : forall name t n file, n = "imp" \/ n = "trt" -> is_diag (nested_t name t (MList n []) file) = true.
+Proof. intros name t n file _. apply nested_t_empty. Qed.
+
+Lemma top_step_empty e n : is_diag (top_step e (MList n [])) = true.
+Proof.
+  unfold top_step. destruct (is_name "file" (MList n [])); [reflexivity|apply empty_part_diag].
+Qed.
+
+Lemma sol_step_empty sol file e n : is_diag (sol_step sol file e (MList n [])) = true.
+Proof.
+  unfold sol_step. destruct (is_name "file" (MList n [])).
+  - destruct file; reflexivity.
+  - unfold parse_sol_nested. apply is_diag_bind, nested_t_empty.
+Qed.
+
+Lemma idents_step_empty file opt n : is_diag (idents_step file opt (MList n [])) = true.
+Proof. unfold idents_step. destruct (is_name "file" (MList n [])); reflexivity. Qed.
+
+Theorem empty_file_diag : forall e sol f opt,
+  is_diag (top_step e (MList "file" [])) = true /\ is_diag (sol_step sol f e (MList "file" [])) = true
+  /\ is_diag (idents_step f opt (MList "file" [])) = true /\ is_diag (file_part_step e (MList "file" [])) = true.
+Proof.
+  intros e sol f opt.
+  split; [apply top_step_empty|]. split; [apply sol_step_empty|]. split; [apply idents_step_empty|reflexivity].
+Qed.
+
+Theorem empty_anywhere_top : forall (l : list meta) n, In (MList n []) l -> is_diag (edit_parse (MList "edit" l)) = true.
+Proof.
+  intros l n Hin. unfold edit_parse, parse. destruct l as [|a [|b l]].
+  - destruct Hin.
+  - destruct Hin as [->|[]]. simpl get_list. cbv iota beta.
+    destruct (is_name "file" (MList n [])); [reflexivity|apply empty_part_diag].
+  - simpl get_list. cbv iota beta. apply foldM_fail with (MList n []); auto.
+    intros s. apply top_step_empty.
+Qed.
+
+Theorem empty_anywhere_part : forall e sol file (l : list meta) n, In (MList n []) l ->
+  is_diag (parse_sol e (MList (sol_name sol) l) file) = true.
+Proof.
+  intros e sol file l n Hin. unfold parse_sol.
+  destruct (which_sol e (MList (sol_name sol) l)) as [sol'|d]; [|reflexivity].
+  destruct l as [|a l]; [destruct Hin|].
+  simpl get_list. cbv iota beta. apply foldM_fail with (MList n []); auto.
+  intros s. apply sol_step_empty.
+Qed.
+
+Theorem empty_anywhere_names : forall os key file (l : list meta) n, In (MList n []) l ->
+  is_diag (parse_idents os (MList key l) file) = true.
+Proof.
+  intros [opt sc] key file l n Hin. unfold parse_idents.
+  destruct l as [|a l]; [destruct Hin|].
+  simpl get_list. cbv iota beta. apply is_diag_bind. apply foldM_fail with (MList n []); auto.
+  intros s. apply idents_step_empty.
+Qed.
+
+Theorem def_not_word_diag : forall name t m file, mname m = "def" -> is_word m = false -> is_diag (nested_t name t m file) = true.
+Proof.
+  intros name [[d i] r] m file Hn Hw. unfold nested_t, is_name. rewrite Hn, Hw. reflexivity.
+Qed.
+
+Theorem name_not_word_diag : forall vec m file, is_word m = false -> is_diag (add_if_unique vec m file) = true.
+Proof. intros vec m file Hw. unfold add_if_unique. rewrite Hw. reflexivity. Qed.
+
+Theorem name_not_word_anywhere : forall os key file (l : list meta) m, In m l -> is_word m = false -> mname m <> "file" ->
+  is_diag (parse_idents os (MList key l) file) = true.
+Proof.
+  intros [opt sc] key file l m Hin Hw Hf. unfold parse_idents.
+  destruct l as [|a l]; [destruct Hin|].
+  simpl get_list. cbv iota beta. apply is_diag_bind. apply foldM_fail with m; auto.
+  intros s. unfold idents_step. rewrite (is_name_false _ _ Hf). apply name_not_word_diag; auto.
+Qed.
+
+Theorem name_in_file_not_word : forall os key file (l fl : list meta) m, In (MList "file" fl) l -> In m fl -> is_word m = false ->
+  is_diag (parse_idents os (MList key l) file) = true.
+Proof.
+  intros [opt sc] key file l fl m Hin Hm Hw. unfold parse_idents.
+  destruct l as [|a l]; [destruct Hin|].
+  simpl get_list. cbv iota beta. apply is_diag_bind. apply foldM_fail with (MList "file" fl); auto.
+  intros s. unfold idents_step.
+  change (is_name "file" (MList "file" fl)) with true. cbv iota.
+  destruct fl as [|b fl]; [destruct Hm|].
+  simpl get_list. cbv iota beta. apply foldM_fail with m; auto.
+  intros s'. destruct file; [reflexivity|]. apply name_not_word_diag; auto.
+Qed.
+
 Print Assumptions unknown_key_top.
 Print Assumptions unknown_key_nested.
 Print Assumptions nested_file_top.
+Print Assumptions parse_family_bare.
+Print Assumptions parse_family_single.
 Print Assumptions parse_names_nodup.
 Print Assumptions parse_family_names_nodup.
+Print Assumptions parse_grammar.
+Print Assumptions parse_family_grammar.
+Print Assumptions empty_edit_diag.
+Print Assumptions empty_part_diag.
+Print Assumptions empty_names_diag.
+Print Assumptions empty_file_diag.
+Print Assumptions empty_anywhere_top.
+Print Assumptions empty_anywhere_part.
+Print Assumptions empty_anywhere_names.
+Print Assumptions def_not_word_diag.
+Print Assumptions name_not_word_diag.
+Print Assumptions name_not_word_anywhere.
+Print Assumptions name_in_file_not_word.
